@@ -1,5 +1,6 @@
 """C13 — each day is predicted by exactly one sub-model: that of its season and day type."""
 import itertools
+import json
 import math
 
 import numpy as np
@@ -186,6 +187,9 @@ def judge_route(c, rec):
                       "temperature_constraints": {"T_min": 0.0, "T_max": 100.0, "T_min_seg": 5.0, "T_max_seg": 95.0}, "f_unc": 1.0}
     case = {"family": c["family"], "submodels": subs, "season": c["season"], "weekday": c["weekday"], "tz": c["tz"]}
     m, doc = gp.build_model(case)
+    from ..gen import zoo
+
+    zoo.decoys("billing" if c["family"] == "billing" else "daily")  # unrelated models with other calendar maps
     idx = synth.local_midnights(0, 731, c["tz"], base="2020-01-01")
     T = 50 + 20 * np.sin(np.arange(len(idx)) / 58.0)
     frame = pd.DataFrame({"temperature": T}, index=idx)
@@ -283,6 +287,9 @@ def judge_select(c, rec):
             pdata = em.DailyBaselineData(pre, is_electricity_data=True)
         m.fit(pdata, ignore_disqualification=True)
     m.fit(data, ignore_disqualification=True)
+    from ..gen import zoo
+
+    zoo.decoys("billing" if prof == "billing" else "daily")  # unrelated models with other calendar maps exist in every real process
     cands = list(m.combinations)
     ss = m.settings.split_selection
     flags = {f: getattr(ss, f) for f in FLAGS}
@@ -336,8 +343,16 @@ def judge_select(c, rec):
             if len(want[i]) != 1 or got[i] != want[i][0]:
                 rec.violation(key + "/wrong-submodel", c, "%s predicted by %r, its cell belongs to %r" % (out.index[i].date(), got[i], want[i]))
                 break
+    _SEEN.setdefault(json.dumps(c, sort_keys=True), (cands, best))
+    first = _SEEN[json.dumps(c, sort_keys=True)]
+    if (cands, best) != first:
+        rec.violation(key + "/depends-on-history", c, "the same baseline fitted earlier in this process had candidates %s and best %r, now %s and %r" % (
+            first[0][:6], first[1], cands[:6], best))
     rec.case(c, len(cands) >= 2, ["sub=select", "profile=" + prof, "reused-object=%d" % bool(c.get("prefit")), "split=%d" % int("__" in (best or "")),
                                   "ncand=%s" % ("1" if len(cands) == 1 else "2-9" if len(cands) < 10 else "10+")])
+
+
+_SEEN = {}
 
 
 JUDGES = {"cand": judge_cand, "route": judge_route, "select": judge_select}
@@ -383,6 +398,9 @@ def run_shard(spec, rec):
             run_judge(judge, c, rec)
         return
     explore(select_cases(), judge, rec, max_examples=spec["n"], seed=spec["seed"], shrink=False)
+    # the first baselines of this shard again, after everything else the process has fitted: same candidates, same choice
+    for key in list(_SEEN)[:2]:
+        run_judge(judge, json.loads(key), rec)
 
 
 def replay(case, rec):
